@@ -771,6 +771,27 @@ val nobrk : z -> bool
 
 val in_scope : chunk -> bool
 
+type le =
+| LF
+| CRLF
+| CR
+
+type setting =
+| SLf
+| SCrlf
+| SCr
+| SAuto
+
+type census = { n_lf : nat; n_crlf : nat; n_cr : nat }
+
+val census0 : census
+
+val bump : le -> census -> census
+
+val census_of : z list -> census
+
+val select_le : setting -> census -> le
+
 val is_blank : z -> bool
 
 val is_eol : z -> bool
